@@ -104,10 +104,20 @@ Section PY.
     rewrite parse_dec_Z_dec_of_Z, bytes_eqb_refl. reflexivity.
   Qed.
 
-  Lemma py_float : forall f, (1 <= e_proto c)%Z -> f < 2 ^ 64 -> pgood (enc_float c f) (p_float c f) (PFloat f).
+  Lemma py_float : forall f x,
+    (if (1 <=? e_proto c)%Z then (if f <? 2 ^ 64 then Some (PFloat f) else None)
+     else match float_text (e_fmtg c f) with
+          | Some b => if b =? f then Some (PFloat f) else None
+          | None => None
+          end) = Some x ->
+    pgood (enc_float c f) (p_float c f) x.
   Proof.
-    intros f Hp Hf. unfold enc_float, p_float. apply Z.leb_le in Hp. rewrite Hp.
-    apply pg_one; [apply wok_emit|]. intros s. cbn [pstep]. rewrite N.mod_small by exact Hf. reflexivity.
+    intros f x H. unfold enc_float, p_float. destruct (1 <=? e_proto c)%Z.
+    - destruct (f <? 2 ^ 64) eqn:Hf; [|discriminate]. inversion H; subst. apply N.ltb_lt in Hf.
+      apply pg_one; [apply wok_emit|]. intros s. cbn [pstep]. rewrite N.mod_small by exact Hf. reflexivity.
+    - destruct (float_text (e_fmtg c f)) as [b|] eqn:T; [|discriminate].
+      destruct (b =? f) eqn:E; [|discriminate]. inversion H; subst. apply N.eqb_eq in E. subst b.
+      apply pg_one; [apply wok_emit|]. intros s. cbn [pstep]. rewrite T. reflexivity.
   Qed.
 
   Lemma wok_emit2 : forall a b, wok (wseq (emit a) (emit b)).
@@ -354,8 +364,7 @@ Section PY.
     - inversion H; subst. apply py_bool.
     - inversion H; subst. apply py_int.
     - destruct (0 <=? z)%Z; [|discriminate]. inversion H; subst. apply py_uint.
-    - destruct ((1 <=? e_proto c)%Z && (f <? 2 ^ 64)) eqn:E; [|discriminate]. inversion H; subst.
-      apply andb_true_iff in E. destruct E as [E1 E2]. apply py_float; [apply Z.leb_le|apply N.ltb_lt]; assumption.
+    - apply py_float. exact H.
     - destruct ty; [apply py_string|apply py_string|apply py_unicode|apply py_bytes|apply py_bytestring]; exact H.
     - apply py_bytearray. exact H.
     - (* Tuple *)
